@@ -1026,7 +1026,7 @@ func c10EveryRequestedKey(c *Ctx) {
 					var bad []string
 					for _, cj := range p.mustHoldAt(u) {
 						for _, a := range cj.list() {
-							if strings.HasSuffix(a, " == nil)") || strings.HasSuffix(a, " != nil)") || strings.Contains(a, "jump$") || strings.Contains(a, "range") || strings.Contains(a, "len(") || strings.Contains(a, "φ") {
+							if strings.HasSuffix(a, " == nil)") || strings.HasSuffix(a, " != nil)") || strings.Contains(a, "jump$") || (strings.Contains(a, "φ") && strings.Contains(a, " < len(")) || (strings.HasPrefix(strings.TrimPrefix(a, "!"), "next(") && strings.HasSuffix(a, "#0")) || (strings.Contains(a, "len(") && strings.HasSuffix(a, " == 0)")) {
 								continue
 							}
 							bad = append(bad, a)
